@@ -74,7 +74,8 @@ Definition walk_step (w : walk) (r : rec) : walk :=
                    a_x := dec (r_x a); a_y := dec (r_y a); a_z := dec (r_z a); a_occ := dec (r_occ a); a_b := dec (r_b a);
                    a_elem := infer_element (r_element a) (r_name a); a_charge := r_charge a;
                    a_atf := match r_atf a with Some u => tensor u | None => None end |} in
-      let key := (chain, ((r_resnum a + radd, r_ins a), ((upper (trim (r_resname a)), upper_opt (r_alt a)), atm))) in
+      (* the insertion code in the case-normalised form in which it is stored: 10a and 10A are one residue *)
+      let key := (chain, ((r_resnum a + radd, upper_opt (r_ins a)), ((upper (trim (r_resname a)), upper_opt (r_alt a)), atm))) in
       {| w_models := w_models w; w_num := w_num w; w_cur := (w_cur w ++ [key])%list; w_ters := w_ters w; w_last_atom := r_serial a;
          w_atom_add := aadd; w_last_res := r_resnum a; w_res_add := radd; w_next_id := w_next_id w + 1 |}
   | _ => w
